@@ -13,10 +13,22 @@
         "respects universes";
       - [teq t' gs a b]: the two types are equal under the new bindings up to the lifetime pairs
         related in both directions by the returned goals.
+    [relate_sound_any_variance] is the same for EVERY variance (in particular the covariant
+    relation of lifetime-free types) with the weaker [teqm true]: lifetimes related in at least
+    one direction by a returned outlives goal, unknowns related by a returned subtype goal.
     Completeness / MGU: the full statement is [Infer.Complete.relate_complete_mgu_statement]
-    (not proved); [relate_complete_partial] proves it for one-sided matching of a pattern with
-    general unknowns against a ground lifetime-free type on a table without unions. *)
-From Chalk Require Import Ir.Syntax Infer.Table Infer.Unify Infer.Sound Infer.Complete.
+    (NOT proved).  Proved steps towards it, all for ground unifiers [θ] that respect universes
+    ([solves θ t]: θ is a solution of the table), lifetime-free types, general unknowns:
+      - [relate_complete_partial]: pattern vs ground type, table without unions;
+      - [relate_complete_matching]: pattern vs ground type, table with prior bindings and unions;
+      - [relate_complete_two_sided]: unknowns on both sides (var/var unions, occurs check with
+        promotion), raw pointers excluded.
+    In each, [relate] succeeds without goals and [θ] solves the resulting table (every such
+    unifier factors through the result).  Integer / float kinds: only the three leaf cases
+    ([relate_complete_numeric_scalar], [_numeric_var_var], [_general_numeric]) are proved, each in
+    isolation.  Open: integer / float unknowns inside the two-sided induction, lifetimes (goals),
+    raw pointers on two-sided problems, non-ground unifiers. *)
+From Chalk Require Import Ir.Syntax Infer.Table Infer.Unify Infer.Sound Infer.Complete Infer.Complete2 Infer.Complete3.
 
 Theorem relate_sound : forall ar adt_var fn_var fuel a b t gs t' K U,
   inv ar K U t -> okt ar K t a -> okt ar K t b ->
@@ -48,6 +60,40 @@ Check teq_sound_in_models : forall (D : Type) (app : head -> list D -> D) (bvar 
                den D app bvar cvar val a = den D app bvar cvar val b) ->
   forall a b, teq t gs a b -> den D app bvar cvar val a = den D app bvar cvar val b.
 
+Theorem relate_sound_any_variance : forall ar adt_var fn_var fuel v a b t gs t' K U,
+  inv ar K U t -> okt ar K t a -> okt ar K t b ->
+  relate adt_var fn_var fuel v a b t = (Done gs, t') ->
+  exists K' U', inv ar K' U' t' /\ step K U t K' U' t' /\ teqm true t' gs a b.
+Proof. exact relate_sound_any_variance_lemma. Qed.
+Check relate_sound_any_variance : forall ar adt_var fn_var fuel v a b t gs t' K U,
+  inv ar K U t -> okt ar K t a -> okt ar K t b ->
+  relate adt_var fn_var fuel v a b t = (Done gs, t') ->
+  exists K' U', inv ar K' U' t' /\ step K U t K' U' t' /\ teqm true t' gs a b.
+
+(** The meaning of [teqm m] (both modes): equal denotation in every model in which bound unknowns
+    denote their values, unknowns of one class coincide, lifetimes related by the goals (in both
+    directions if [m = false], in one if [m = true]) coincide and, if [m = true], the two sides of
+    every returned subtype goal coincide. *)
+Theorem teqm_sound_in_models : forall (D : Type) (app : head -> list D -> D) (bvar : sort -> N -> N -> D) (cvar : N -> N -> D -> D)
+    (val : N -> D) (t : table) (gs : list tm),
+  (forall v x, bound_to t v x -> val v = den D app bvar cvar val x) ->
+  (forall v w, same_class t v w -> val v = val w) ->
+  forall m : bool,
+  (forall a b, kind_of a = KLt -> kind_of b = KLt -> In (outlives_goal a b) gs -> (m = false -> In (outlives_goal b a) gs) ->
+               den D app bvar cvar val a = den D app bvar cvar val b) ->
+  (m = true -> forall a b, In (subtype_goal a b) gs -> den D app bvar cvar val a = den D app bvar cvar val b) ->
+  forall a b, teqm m t gs a b -> den D app bvar cvar val a = den D app bvar cvar val b.
+Proof. exact teqm_model. Qed.
+Check teqm_sound_in_models : forall (D : Type) (app : head -> list D -> D) (bvar : sort -> N -> N -> D) (cvar : N -> N -> D -> D)
+    (val : N -> D) (t : table) (gs : list tm),
+  (forall v x, bound_to t v x -> val v = den D app bvar cvar val x) ->
+  (forall v w, same_class t v w -> val v = val w) ->
+  forall m : bool,
+  (forall a b, kind_of a = KLt -> kind_of b = KLt -> In (outlives_goal a b) gs -> (m = false -> In (outlives_goal b a) gs) ->
+               den D app bvar cvar val a = den D app bvar cvar val b) ->
+  (m = true -> forall a b, In (subtype_goal a b) gs -> den D app bvar cvar val a = den D app bvar cvar val b) ->
+  forall a b, teqm m t gs a b -> den D app bvar cvar val a = den D app bvar cvar val b.
+
 Theorem relate_complete_partial : forall adt_var fn_var θ fuel a t,
   pattern a = true -> (Closed.depth (app_subst θ a) < fuel)%nat -> mstate θ t -> (forall v, In v (pvars a) -> v < nvars t) ->
   exists t', relate adt_var fn_var fuel Invariant a (app_subst θ a) t = (Done [], t')
@@ -57,3 +103,66 @@ Check relate_complete_partial : forall adt_var fn_var θ fuel a t,
   pattern a = true -> (Closed.depth (app_subst θ a) < fuel)%nat -> mstate θ t -> (forall v, In v (pvars a) -> v < nvars t) ->
   exists t', relate adt_var fn_var fuel Invariant a (app_subst θ a) t = (Done [], t')
              /\ nvars t' = nvars t /\ pext t t' /\ mstate θ t' /\ (forall v, In v (pvars a) -> bound_to t' v (θ v)).
+
+Theorem relate_complete_matching : forall adt_var fn_var θ fuel a t,
+  pattern a = true -> (Closed.depth (app_subst θ a) < fuel)%nat -> solves θ t -> (forall v, In v (pvars a) -> v < nvars t) ->
+  exists t', relate adt_var fn_var fuel Invariant a (app_subst θ a) t = (Done [], t')
+             /\ solves θ t' /\ nvars t' = nvars t /\ pext t t'.
+Proof. exact relate_complete_matching_lemma. Qed.
+Check relate_complete_matching : forall adt_var fn_var θ fuel a t,
+  pattern a = true -> (Closed.depth (app_subst θ a) < fuel)%nat -> solves θ t -> (forall v, In v (pvars a) -> v < nvars t) ->
+  exists t', relate adt_var fn_var fuel Invariant a (app_subst θ a) t = (Done [], t')
+             /\ solves θ t' /\ nvars t' = nvars t /\ pext t t'.
+
+Theorem relate_complete_two_sided : forall adt_var fn_var θ fuel a b t,
+  pattern a = true -> pattern b = true -> noraw a = true -> noraw b = true ->
+  (forall v, In v (pvars a) -> v < nvars t) -> (forall v, In v (pvars b) -> v < nvars t) ->
+  app_subst θ a = app_subst θ b -> (2 * Closed.depth (app_subst θ a) < fuel)%nat -> solves θ t -> traw t ->
+  exists t', relate adt_var fn_var fuel Invariant a b t = (Done [], t')
+             /\ solves θ t' /\ traw t' /\ nvars t' = nvars t /\ pext t t'.
+Proof. exact relate_complete_two_sided_lemma. Qed.
+Check relate_complete_two_sided : forall adt_var fn_var θ fuel a b t,
+  pattern a = true -> pattern b = true -> noraw a = true -> noraw b = true ->
+  (forall v, In v (pvars a) -> v < nvars t) -> (forall v, In v (pvars b) -> v < nvars t) ->
+  app_subst θ a = app_subst θ b -> (2 * Closed.depth (app_subst θ a) < fuel)%nat -> solves θ t -> traw t ->
+  exists t', relate adt_var fn_var fuel Invariant a b t = (Done [], t')
+             /\ solves θ t' /\ traw t' /\ nvars t' = nvars t /\ pext t t'.
+
+(** An unbound integer (float) unknown related with an integer (float) scalar is bound to it. *)
+Theorem relate_complete_numeric_scalar : forall adt_var fn_var f v k s t c u vr,
+  numeric_kind k = true -> scalar_of_kind k s = true -> get t v = Some c -> cval c = Unbound u ->
+  relate adt_var fn_var (S (S (S f))) vr (Node (HInfer v k) []) (Node (HScalar s) []) t
+  = (Done [], set_value (ccls c) (Bound (Node (HScalar s) [])) t).
+Proof. exact relate_complete_numeric_scalar_lemma. Qed.
+Check relate_complete_numeric_scalar : forall adt_var fn_var f v k s t c u vr,
+  numeric_kind k = true -> scalar_of_kind k s = true -> get t v = Some c -> cval c = Unbound u ->
+  relate adt_var fn_var (S (S (S f))) vr (Node (HInfer v k) []) (Node (HScalar s) []) t
+  = (Done [], set_value (ccls c) (Bound (Node (HScalar s) [])) t).
+
+(** Two unbound unknowns of the same numeric kind are unioned, keeping the smaller universe. *)
+Theorem relate_complete_numeric_var_var : forall adt_var fn_var f v1 v2 k t c1 c2 u1 u2 vr,
+  numeric_kind k = true -> get t v1 = Some c1 -> cval c1 = Unbound u1 -> get t v2 = Some c2 -> cval c2 = Unbound u2 ->
+  ccls c1 <> ccls c2 ->
+  relate adt_var fn_var (S f) vr (Node (HInfer v1 k) []) (Node (HInfer v2 k) []) t
+  = (Done [], merge (ccls c1) (ccls c2) (Unbound (N.min u1 u2)) t).
+Proof. exact relate_complete_numeric_var_var_lemma. Qed.
+Check relate_complete_numeric_var_var : forall adt_var fn_var f v1 v2 k t c1 c2 u1 u2 vr,
+  numeric_kind k = true -> get t v1 = Some c1 -> cval c1 = Unbound u1 -> get t v2 = Some c2 -> cval c2 = Unbound u2 ->
+  ccls c1 <> ccls c2 ->
+  relate adt_var fn_var (S f) vr (Node (HInfer v1 k) []) (Node (HInfer v2 k) []) t
+  = (Done [], merge (ccls c1) (ccls c2) (Unbound (N.min u1 u2)) t).
+
+(** An unbound general unknown related with an unbound integer / float unknown (either order) is bound to it. *)
+Theorem relate_complete_general_numeric : forall adt_var fn_var f v1 v2 k t c1 u1 vr,
+  numeric_kind k = true -> get t v1 = Some c1 -> cval c1 = Unbound u1 -> probe_tm t (Node (HInfer v2 k) []) = None ->
+  relate adt_var fn_var (S f) vr (Node (HInfer v1 General) []) (Node (HInfer v2 k) []) t
+  = (Done [], set_value (ccls c1) (Bound (Node (HInfer v2 k) [])) t)
+  /\ relate adt_var fn_var (S f) vr (Node (HInfer v2 k) []) (Node (HInfer v1 General) []) t
+     = (Done [], set_value (ccls c1) (Bound (Node (HInfer v2 k) [])) t).
+Proof. exact relate_complete_general_numeric_lemma. Qed.
+Check relate_complete_general_numeric : forall adt_var fn_var f v1 v2 k t c1 u1 vr,
+  numeric_kind k = true -> get t v1 = Some c1 -> cval c1 = Unbound u1 -> probe_tm t (Node (HInfer v2 k) []) = None ->
+  relate adt_var fn_var (S f) vr (Node (HInfer v1 General) []) (Node (HInfer v2 k) []) t
+  = (Done [], set_value (ccls c1) (Bound (Node (HInfer v2 k) [])) t)
+  /\ relate adt_var fn_var (S f) vr (Node (HInfer v2 k) []) (Node (HInfer v1 General) []) t
+     = (Done [], set_value (ccls c1) (Bound (Node (HInfer v2 k) [])) t).
